@@ -56,6 +56,7 @@ static void slots(int nThreads, int opsPerThread, int initKind, long maxSched) {
             std::vector<Rec> initial;
             fib::Explorer ex;
             ex.maxSchedules = (size_t)maxSched;
+            ex.stop = [&]() { return W->dl.hit(); };
             auto putInit = [&]() {
                 tt.clear();
                 initial.clear();
@@ -181,7 +182,9 @@ static void weakProduct(int nThreads, int opsPerThread, int initKind, long maxCo
                 return s;
             };
             ex.atEnd = [&](const std::vector<int>&) { ex.sharedState(); };
+            ex.stop = [&]() { return W->dl.hit(); };
             ex.explore();
+            if (ex.capped) { R.exhaustive = false; R.count("capped_programs"); return; }   // value sets incomplete: no product for this program
             std::vector<Rec> all = initial; for (int x : sel) all.push_back(alpha[x]);
             std::vector<std::vector<U64>> v(8); double prod = 1; for (int i = 0; i < 8; i++) { v[i].assign(vals[i].begin(), vals[i].end()); prod *= (double)v[i].size(); }
             R.count("programs"); R.count("transitions", (long long)ex.transitions); R.maxOf("max_product", (long long)prod);
@@ -189,8 +192,10 @@ static void weakProduct(int nThreads, int opsPerThread, int initKind, long maxCo
             if (maxCombos && prod > (double)maxCombos) { R.exhaustive = false; R.count("capped_programs"); }
             else {
                 std::vector<size_t> c(8, 0);
+                unsigned long long nCombos = 0;
                 while (true) {
                     int mixed = 0;
+                    if ((++nCombos & 0xFFFF) == 0 && W->dl.hit()) { R.exhaustive = false; R.count("capped_programs"); break; }
                     for (int i = 0; i < 4; i++) { tt.table[idx + i].key.v.store(v[2 * i][c[2 * i]]); tt.table[idx + i].data.v.store(v[2 * i + 1][c[2 * i + 1]]); }
                     U64 snap[8]; for (int i = 0; i < 4; i++) { snap[2 * i] = v[2 * i][c[2 * i]]; snap[2 * i + 1] = v[2 * i + 1][c[2 * i + 1]]; }
                     for (int ki = 0; ki < 3; ki++) {
